@@ -131,6 +131,12 @@ def txn (cond thn : M R Unit) (rollback : Option (Bool → M R Unit)) : M R Unit
       | none => (.fail, ms2)
       | some rb => (.fail, (rb false flt ms2).2)
 
+/-- run `m`; if it fails also send message `msg` (Go: deferred `ch <- &Message{Error: err}`) -/
+def withFailMsg (m : M R Unit) (msg : Msg) : M R Unit := fun flt ms =>
+  match m flt ms with
+  | (.ok u, ms') => (.ok u, ms')
+  | (.fail, ms') => (.fail, { ms' with msgs := ms'.msgs ++ [msg] })
+
 /-- `utils.PCR`-style rollback: only when the commit (then) step failed -/
 def onThenFailure (rb : M R Unit) : Option (Bool → M R Unit) :=
   some fun byCond => if byCond then pure () else rb
